@@ -185,6 +185,22 @@ def r3(ctx):
         bad = [p for p in enumerate_paths(f) if feasible(p, ev, {"self.isScheduled": True})
                and not any(isinstance(n, ast.Call) and self_call(n) == "suspend_task" for n in path_nodes(p))]
         ctx.check("SSM.stop_timer:suspends", not bad, where(base.module, f), "stop_timer() does not suspend a scheduled timer")
+    # the IOCB's own timeout: arming it again must not leave the previous task scheduled
+    io = prog.cls("iocb", "IOCB")
+    st_ = io.methods.get("set_timeout")
+    if st_ is None:
+        raise AnchorMissing("IOCB.set_timeout")
+    evio = Evaluator(prog, io.module, io)
+    for p in enumerate_paths(st_):
+        if p.term == "raise":
+            continue
+        nodes = path_nodes(p)
+        replaced = [n for n in nodes if isinstance(n, ast.Assign) and any(norm(t) == "self.ioTimeout" for t in n.targets)]
+        susp = [n for n in nodes if isinstance(n, ast.Call) and norm(n.func) == "self.ioTimeout.suspend_task"]
+        inst = [n for n in nodes if isinstance(n, ast.Call) and norm(n.func) == "self.ioTimeout.install_task"]
+        had = feasible(p, evio, {"self.ioTimeout": True})
+        ok = len(inst) == 1 and (not had or bool(susp)) and (not replaced or not had or (susp and susp[0].lineno < replaced[0].lineno))
+        ctx.check("IOCB.set_timeout:rearm", ok, where(io.module, st_), "setting the timeout again must suspend the task armed before (or re-use it): a second task would fire at the old deadline and outlive the outcome")
     for tm in ("start_timer", "restart_timer"):
         f = base.methods.get(tm)
         if f is None:
@@ -193,9 +209,18 @@ def r3(ctx):
             nodes = path_nodes(p)
             inst = [n for n in nodes if isinstance(n, ast.Call) and self_call(n) == "install_task"]
             susp = [n for n in nodes if isinstance(n, ast.Call) and self_call(n) == "suspend_task"]
-            ok = len(inst) == 1
-            if feasible(p, ev, {"self.isScheduled": True}) and not feasible(p, ev, {"self.isScheduled": False}):
+            # delegation to the sibling that is checked here too: stop_timer() suspends a pending timer,
+            # start_timer(msecs) suspends and installs
+            deleg_stop = [n for n in nodes if isinstance(n, ast.Call) and self_call(n) == "stop_timer"]
+            deleg_start = [n for n in nodes if isinstance(n, ast.Call) and self_call(n) == "start_timer" and tm != "start_timer"
+                           and len(n.args) == 1 and norm(n.args[0]) == f.args.args[1].arg]
+            ok = len(inst) + len(deleg_start) == 1
+            if deleg_stop or deleg_start:
+                pass
+            elif feasible(p, ev, {"self.isScheduled": True}) and not feasible(p, ev, {"self.isScheduled": False}):
                 ok = ok and len(susp) >= 1
+            elif not any("isScheduled" in norm(t) for t, _ in p.conds()):
+                ok = ok and False if not susp else ok            # no test of the pending timer at all: it must be suspended unconditionally
             ctx.check("SSM.%s:reinstall" % tm, ok, where(base.module, f), "timer (re)start must suspend a pending timer and install exactly once")
             for c in inst:
                 # delta = msecs / 1000.0
